@@ -354,27 +354,39 @@ Definition read_markup (z : lx) : res (Z * sl * sl * lx) :=
         Ok (CommentT, fst (fst b), snd (fst b), snd b).
 
 (* ---- shiftXML ------------------------------------------------------------------------------ *)
-(* first loop: state (z, inTag, quote) with quote = 0 for "none"; result inl z = break, inr z = "c == 0": maybe
-   set l.err, return Shift() *)
-Definition xml_body (raw : Z) (s : lx * bool * Z) : res (lp (lx * bool * Z) (lx + lx)) :=
-  let '(z, intg, q) := s in
+(* first loop: state (z, inTag, quote, skip) with quote = 0 for "none", skip = 0 none / 1 comment / 2 CDATA section /
+   3 processing instruction; result inl z = break, inr z = "c == 0": maybe set l.err, return Shift() *)
+Definition xml_body (raw : Z) (s : lx * bool * Z * Z) : res (lp (lx * bool * Z * Z) (lx + lx)) :=
+  let '(z, intg, q, sk) := s in
   c <-- pkr z 0 ;;
-  if negb (q =? 0) && negb (c =? 0) then
-    Ok (Cont (mv z 1, intg, if c =? q then 0 else q))
+  if negb (sk =? 0) && negb (c =? 0) then
+    (* inside a comment, CDATA section or processing instruction, where an end tag is not an end tag *)
+    a <-- (if sk =? 1 then at_ z [45; 45; 62] else if sk =? 2 then at_ z [93; 93; 62] else Ok false) ;;
+    if a then Ok (Cont (mv z 3, intg, q, 0))
+    else
+      b <-- (if sk =? 3 then at_ z [63; 62] else Ok false) ;;
+      if b then Ok (Cont (mv z 2, intg, q, 0)) else Ok (Cont (mv z 1, intg, q, sk))
+  else if negb (q =? 0) && negb (c =? 0) then
+    Ok (Cont (mv z 1, intg, (if c =? q then 0 else q), sk))
   else if intg && negb (c =? 0) then
     (* quotes are only significant inside a tag *)
-    Ok (Cont (mv z 1, if c =? 62 then false else intg, if (c =? 34) || (c =? 39) then c else q))
+    Ok (Cont (mv z 1, (if c =? 62 then false else intg), (if (c =? 34) || (c =? 39) then c else q), sk))
   else if c =? 60 then
     c1 <-- pkr z 1 ;;
     if negb (c1 =? 47) then
-      Ok (Cont (mv z 1, negb (c1 =? 33) && negb (c1 =? 63), q))
+      a1 <-- at_ z [60; 33; 45; 45] ;;
+      if a1 then Ok (Cont (mv z 4, intg, q, 1)) else
+      a2 <-- at_ z [60; 33; 91; 67; 68; 65; 84; 65; 91] ;;
+      if a2 then Ok (Cont (mv z 9, intg, q, 2)) else
+      if c1 =? 63 then Ok (Cont (mv z 2, intg, q, 3))
+      else Ok (Cont (mv z 1, negb (c1 =? 33), q, sk))
     else
       let mk := mark z in
       z2 <-- letters_loop (mv z 2) ;;
       h <-- hash_lexeme_from z2 (mk + 2) ;;
-      if h =? raw then Ok (Brk (inl z2)) else Ok (Cont (z2, intg, q))
+      if h =? raw then Ok (Brk (inl z2)) else Ok (Cont (z2, intg, q, sk))
   else if c =? 0 then Ok (Brk (inr z))
-  else Ok (Cont (mv z 1, intg, q)).
+  else Ok (Cont (mv z 1, intg, q, sk)).
 
 (* second loop: to '>' (inl, after Move(1)) or NUL (inr) *)
 Definition xml_close_body (z : lx) : res (lp lx (lx + lx)) :=
@@ -385,7 +397,7 @@ Definition xml_close_body (z : lx) : res (lp lx (lx + lx)) :=
 
 (* returns (data view, cursor, l.err after) *)
 Definition shift_xml (raw : Z) (z : lx) (err : bool) : res (sl * lx * bool) :=
-  r <-- loop (fuel_of z) (xml_body raw) (z, true, 0) ;;
+  r <-- loop (fuel_of z) (xml_body raw) (z, true, 0, 0) ;;
   match r with
   | inr z' => s <-- shiftv z' ;; Ok (fst s, snd s, err || negb (at_end z'))
   | inl z' =>
